@@ -61,8 +61,15 @@ type DR struct {
 	LB       int
 	TS       int64
 }
+type SC struct {
+	Name, Ns string
+	Sel      map[string]string
+	Hosts    []string
+	TS       int64
+}
 type World struct {
-	Mode      string // clean | k6 | pickbest | sharedvip | httpproxy
+	SCs       []SC
+	Mode      string // clean | k6 | pickbest | sharedvip | httpproxy | sidecars
 	SEs       []SE
 	VSs       []VS
 	DRs       []DR
@@ -132,6 +139,13 @@ func (w World) configs() []config.Config {
 			dr.Subsets = []*networking.Subset{{Name: "v1", Labels: map[string]string{"version": "v1"}}, {Name: "v2-" + d.Name, Labels: map[string]string{"version": "v2"}}}
 		}
 		out = append(out, config.Config{Meta: config.Meta{GroupVersionKind: gvk.DestinationRule, Name: d.Name, Namespace: d.Ns, CreationTimestamp: ts(d.TS)}, Spec: dr})
+	}
+	for _, x := range w.SCs {
+		sc := &networking.Sidecar{Egress: []*networking.IstioEgressListener{{Hosts: x.Hosts}}}
+		if x.Sel != nil {
+			sc.WorkloadSelector = &networking.WorkloadSelector{Labels: x.Sel}
+		}
+		out = append(out, config.Config{Meta: config.Meta{GroupVersionKind: gvk.Sidecar, Name: x.Name, Namespace: x.Ns, CreationTimestamp: ts(x.TS)}, Spec: sc})
 	}
 	if w.HTTPProxy {
 		sc := &networking.Sidecar{Egress: []*networking.IstioEgressListener{
@@ -205,6 +219,14 @@ func genWorld(r *vlib.Rand, mode string) World {
 		w.SEs = append(w.SEs, se)
 	}
 	switch mode {
+	case "sidecars":
+		// equal-age Sidecars of the proxy's namespace that all apply to the proxy (labels app=x)
+		names := permute([]string{"by-app", "all-ns2", "zz-ns3", "a-local"}, perm(r, 4))
+		w.SCs = append(w.SCs,
+			SC{Name: names[0], Ns: "ns1", Sel: map[string]string{"app": "x"}, Hosts: []string{"ns2/*"}, TS: 0},
+			SC{Name: names[1], Ns: "ns1", Sel: map[string]string{"app": "x"}, Hosts: []string{"ns3/*"}, TS: 0},
+			SC{Name: names[2], Ns: "ns1", Hosts: []string{"./*"}, TS: 0},
+			SC{Name: names[3], Ns: "ns1", Hosts: []string{"*/*"}, TS: 0})
 	case "sharedvip":
 		// one ServiceEntry with an address, two hosts, an HTTP port and no VirtualService for them
 		s := mkSE(40, vlib.Pick(r, dNs), []string{"v1.shared.example.com", "v2.shared.example.com"}, 0)
@@ -381,7 +403,7 @@ func sameStrings(a, b []string) bool {
 
 
 func genDirect(t *testing.T, c *vlib.Collector, id *int, r *vlib.Rand, n int) {
-	modes := []string{"clean", "k6", "httpproxy", "pickbest", "sharedvip", "clean"}
+	modes := []string{"clean", "sidecars", "k6", "httpproxy", "pickbest", "sharedvip"}
 	for k := 0; k < n; k++ {
 		rr := r.Sub()
 		mode := modes[k%len(modes)]
